@@ -902,10 +902,17 @@ fn dev_case<const N: usize>(ctx: &Ctx, idx: usize, id: String, hostile: bool) ->
                             }
                         }
                     }
-                    Ok(b) => {
+                    Ok(mut b) => {
                         let ident = b.as_bytes().as_ptr() as usize;
                         let bid = idents.iter().position(|p| *p == ident);
                         let pk = guarded(|| b.packet().to_vec());
+                        // the mutable view is the same frame (same header length: 12 bytes iff VERSION_1)
+                        let pm = guarded(|| b.packet_mut().to_vec());
+                        match (&pk, &pm) {
+                            (Ok(p), Ok(m)) if p != m => c.fail(format!("RxBuffer::packet_mut() is not the frame packet() returns with a {}-byte header: {} bytes vs {} bytes{}", hl, m.len(), p.len(), if m.len() == p.len() { ", shifted" } else { "" })),
+                            (Ok(_), Err(e)) => c.fail(format!("RxBuffer::packet_mut panicked where packet() did not: {}", e)),
+                            _ => {}
+                        }
                         let tok = if rx_used.is_empty() { u16::MAX } else { rx_used.remove(0) };
                         c.step(
                             "net recv",
@@ -1159,6 +1166,70 @@ fn lengths_case(ctx: &Ctx, which: usize, id: String) -> Case {
     c
 }
 
+/// 66 000 frames received and recycled one after the other through `VirtIONet` (oracles only): the 16-bit
+/// ring indices wrap on the way; every frame must arrive, intact, and every recycled buffer be posted again
+fn wrap_case(ctx: &Ctx, which: usize, id: String) -> Case {
+    let mut c = Case::new(id);
+    let offered = if which % 2 == 0 { 1u64 << 32 } else { 0 };
+    let buf_len = 1528usize;
+    let (t, st) = setup_transport(offered);
+    let mut net = match guarded(|| VirtIONet::<LedgerHal, ModelTransport, 2>::new(t, buf_len)) {
+        Ok(Ok(n)) => n,
+        other => {
+            c.fail(format!("VirtIONet::new failed: {:?}", other.map(|r| r.err())));
+            return c;
+        }
+    };
+    let mut rng = ctx.case_rng("net-wrap", which);
+    if let Err(e) = install_nic(&st, 2, rng.fork()) {
+        c.fail(e);
+        return c;
+    }
+    let _ = with_nic(|n| n.poll_rx());
+    for k in 0..66_000u32 {
+        let pend: Vec<u16> = with_nic(|n| n.rx.inflight.iter().map(|c| c.head).collect());
+        if pend.is_empty() {
+            c.fail(format!("long run: no receive buffer posted before frame {}", k));
+            break;
+        }
+        let tok = *rng.pick(&pend);
+        let flen = 1 + (k as usize * 7) % 60;
+        let frame = rng.bytes(flen);
+        if let Err(e) = with_nic(|n| n.inject(tok, &frame, None)) {
+            c.fail(e);
+            break;
+        }
+        if !net.can_recv() {
+            c.fail(format!("long run: the device has used a receive buffer for frame {} but can_recv() is false", k));
+            break;
+        }
+        match guarded(|| net.receive()) {
+            Ok(Ok(b)) => {
+                if b.packet_len() != flen || b.packet() != frame {
+                    c.fail(format!("long run: frame {} of {} bytes arrived as {} bytes or with different contents", k, flen, b.packet_len()));
+                    break;
+                }
+                with_nic(|n| n.rx_posted.remove(&tok));
+                let r = net.recycle_rx_buffer(b);
+                let new = with_nic(|n| n.poll_rx());
+                if r.is_err() || new.len() != 1 {
+                    c.fail(format!("long run: recycle after frame {} failed ({:?}, {} buffers newly posted)", k, r, new.len()));
+                    break;
+                }
+            }
+            other => {
+                c.fail(format!("long run: receive of frame {}: {:?}", k, other.map(|r| r.map(|_| ()))));
+                break;
+            }
+        }
+    }
+    c.tag("net-wrap");
+    c.nontrivial = true;
+    drop(net);
+    let _ = crate::hal::take_events();
+    c
+}
+
 fn oracle_selftest() -> Vec<String> {
     let mut bad = vec![];
     let mut c = Case::new("t");
@@ -1200,6 +1271,7 @@ pub fn run(ctx: &Ctx) -> (Vec<Case>, String, bool, BTreeMap<String, String>) {
     all.extend(crate::runner::par_cases(ctx, "C16", "dev", n, |i, id| dispatch_dev(ctx, i, id, false)));
     all.extend(crate::runner::par_cases(ctx, "C16", "dev-malformed", nm, |i, id| dispatch_dev(ctx, i, id, true)));
     all.extend(crate::runner::par_cases(ctx, "C16", "lengths", 16, |i, id| lengths_case(ctx, i, id)));
+    all.extend(crate::runner::par_cases(ctx, "C16", "net-wrap", ctx.tier.pick(2, 8), |i, id| wrap_case(ctx, i, id)));
     let mut st = Case::new(ctx.case_id("C16", "oracle-selftest", 0));
     if ctx.wants(&st.id) {
         for b in oracle_selftest() {
@@ -1208,6 +1280,6 @@ pub fn run(ctx: &Ctx) -> (Vec<Case>, String, bool, BTreeMap<String, String>) {
         all.push(st);
     }
     virtio_drivers::verif_hooks::set_spin_hook(None);
-    let rule = "real VirtIONetRaw and VirtIONet with QUEUE_SIZE in {1,2,4,16} on ModelTransport+LedgerHal against a spec-written reference NIC; offered features random over {MAC,STATUS,INDIRECT,EVENT_IDX,VERSION_1,ACCESS_PLATFORM} plus unsupported bits (MRG_RXBUF among them), VERSION_1 forced on in even and off in odd cases. Stream `raw`: receive_begin/complete, poll, transmit_begin/complete with fill_buffer_header, blocking send and receive_wait, device bursts of 1..3 frames into pending buffers of its choice, completions consumed in and out of ring order. Stream `dev`: VirtIONet::new with buffer lengths {1528..4096}, bursts of 1..4 frames in device-chosen order, can_recv/receive/recycle/can_send/send, and a final drain (consume all completions, recycle everything) after which QUEUE_SIZE buffers must be posted. Streams `*-malformed`: additionally too-small buffers, used lengths below the header size, send with a stale completion. Stream `lengths`: every frame length 0..=buffer-header for the 10- and the 12-byte header through VirtIONet receive and (<=1514) send: complete enumeration. Non-trivial = at least one frame received with verified contents.".to_string();
+    let rule = "real VirtIONetRaw and VirtIONet with QUEUE_SIZE in {1,2,4,16} on ModelTransport+LedgerHal against a spec-written reference NIC; offered features random over {MAC,STATUS,INDIRECT,EVENT_IDX,VERSION_1,ACCESS_PLATFORM} plus unsupported bits (MRG_RXBUF among them), VERSION_1 forced on in even and off in odd cases. Stream `raw`: receive_begin/complete, poll, transmit_begin/complete with fill_buffer_header, blocking send and receive_wait, device bursts of 1..3 frames into pending buffers of its choice, completions consumed in and out of ring order. Stream `dev`: VirtIONet::new with buffer lengths {1528..4096}, bursts of 1..4 frames in device-chosen order, can_recv/receive/recycle/can_send/send, and a final drain (consume all completions, recycle everything) after which QUEUE_SIZE buffers must be posted. Streams `*-malformed`: additionally too-small buffers, used lengths below the header size, send with a stale completion. Stream `lengths`: every frame length 0..=buffer-header for the 10- and the 12-byte header through VirtIONet receive and (<=1514) send: complete enumeration. Stream `net-wrap`: 66000 frames received and recycled one by one (the ring indices wrap). Non-trivial = at least one frame received with verified contents.".to_string();
     (all, rule, false, BTreeMap::new())
 }
